@@ -263,6 +263,7 @@ impl World {
                     Ctor::FromIter => data.into_vec().into_iter().collect(),
                     Ctor::TryNew => BoxedLockCollection::try_new(data).ok_or_else(|| bad("try_new rejected owned data"))?,
                     Ctor::NewThenExtend(_) => return Err(bad("boxed collections cannot be extended")),
+                    Ctor::Default => BoxedLockCollection::default(),
                 };
                 reg(c.child().members(), false);
                 if poison {
@@ -277,6 +278,7 @@ impl World {
                     Ctor::From => RetryingLockCollection::from(data),
                     Ctor::FromIter => data.into_vec().into_iter().collect(),
                     Ctor::TryNew => RetryingLockCollection::try_new(data).ok_or_else(|| bad("try_new rejected owned data"))?,
+                    Ctor::Default => RetryingLockCollection::default(),
                 };
                 if !rest.is_empty() {
                     c.extend(rest.iter().map(mk));
@@ -296,6 +298,7 @@ impl World {
                     Ctor::New | Ctor::TryNew | Ctor::NewThenExtend(_) => OwnedLockCollection::new(data),
                     Ctor::From => OwnedLockCollection::from(data),
                     Ctor::FromIter => data.into_vec().into_iter().collect(),
+                    Ctor::Default => OwnedLockCollection::default(),
                 };
                 if !rest.is_empty() {
                     c.extend(rest.iter().map(mk));
